@@ -360,10 +360,6 @@ func (this *partition) updateValue(notificationId uuid.UUID, id uuid.UUID, value
 		this.notificator.Notify(notificationId, err, false)
 		return nil
 	}
-	if err := this.index.Remove(id); err != nil {
-		this.notificator.Notify(notificationId, err, false)
-		return nil
-	}
 	if metadata == nil {
 		metadata = make(index.Metadata)
 	}
@@ -371,6 +367,14 @@ func (this *partition) updateValue(notificationId uuid.UUID, id uuid.UUID, value
 		if _, exists := metadata[k]; !exists {
 			metadata[k] = v
 		}
+	}
+	if err := metadata.Validate(); err != nil {
+		this.notificator.Notify(notificationId, err, false)
+		return nil
+	}
+	if err := this.index.Remove(id); err != nil {
+		this.notificator.Notify(notificationId, err, false)
+		return nil
 	}
 	err = this.index.Insert(id, value, metadata, vertex.Level())
 	this.notificator.Notify(notificationId, err, false)
@@ -410,11 +414,7 @@ func (this *partition) batchUpdateValue(notificationId uuid.UUID, items []*pb.Ba
 			errors[id] = err
 			continue
 		}
-		if err := this.index.Remove(id); err != nil {
-			errors[id] = err
-			continue
-		}
-		metadata := item.GetMetadata()
+		var metadata index.Metadata = item.GetMetadata()
 		if metadata == nil {
 			metadata = make(index.Metadata)
 		}
@@ -422,6 +422,14 @@ func (this *partition) batchUpdateValue(notificationId uuid.UUID, items []*pb.Ba
 			if _, exists := metadata[k]; !exists {
 				metadata[k] = v
 			}
+		}
+		if err := metadata.Validate(); err != nil {
+			errors[id] = err
+			continue
+		}
+		if err := this.index.Remove(id); err != nil {
+			errors[id] = err
+			continue
 		}
 		if err := this.index.Insert(id, item.GetValue(), metadata, vertex.Level()); err != nil {
 			errors[id] = err
